@@ -2,6 +2,7 @@ package main
 
 import (
 	"fmt"
+	"math"
 	"math/rand"
 	"reflect"
 	"sort"
@@ -15,7 +16,7 @@ func init() { generators["C04"] = genC04 }
 
 func (c *Case) Str(s string) *Case { return c.Bytes([]byte(s)) }
 
-var metaInts = []int{-5, -1, 0, 1, 2, 3, 5, 7, -7, 100, -100, 1 << 40, -(1 << 40), 1 << 62, -(1 << 62)}
+var metaInts = []int{-5, -1, 0, 1, 2, 3, 5, 7, -7, 100, -100, 1 << 40, -(1 << 40), 1 << 62, -(1 << 62), math.MaxInt64, math.MinInt64, math.MaxInt64 - 1, math.MinInt64 + 1}
 var metaFloats = []float64{0.5, 1.25, 9.999, 9.99, -3.14159, 100, -0.004, 0, 2.675, 1e6 + 0.125, 0.29, 0.57, 1.15, 4.55, -0.29, 0.005, -0.005, 0.015}
 var metaCats = []string{"a", "b", "c", "", "x:y", "true", "5"}
 
